@@ -133,7 +133,10 @@ def main():
     for si, sess in enumerate(scen["sessions"]):
         with R.LOCK:
             R.log("session_begin", s=si)
-        kw = dict(backend="local", cache_directory=scen["cache_dir"], disable_dependencies=not scen.get("resolver", False))
+        # a session (= one executor) may set the dependency resolver on or off for itself: the same call over the same directory
+        # must be the same cache entry whichever kind of executor it is submitted to
+        res_on = sess[0].get("session_resolver", scen.get("resolver", False)) if sess else scen.get("resolver", False)
+        kw = dict(backend="local", cache_directory=scen["cache_dir"], disable_dependencies=not res_on)
         if scen.get("block", True):
             kw.update(block_allocation=True, max_workers=scen.get("workers", 1))
         else:
